@@ -31,7 +31,7 @@ def run(c):
               "~22 per height, 3 heights) x WAL tail variant (unsynced tail lost / survived) x cache mode (flush every block / "
               "recent state in memory); each is one real kill + restart + continuation; non-trivial = every one (each is a "
               "different crash point)")
-    c.assumptions = ["restart goes straight to consensus with WAL catch-up (fast sync off); the network is honest and timely after the restart",
+    c.assumptions = ["two start paths after the crash: straight to consensus (fast sync off) and, in flush mode, through the REAL block-sync reactor and consensus manager on a p2p switch without peers (nobody is ahead: the reactor finishes having fetched nothing and its demux routine calls SwitchToConsensus); the network is honest and timely after the restart",
                      "validator 1 of 4 equal validators is the victim (proposer of height 1); blocks are empty"]
     pts = {}
     pts.update(model(c, "MC_flush"))
